@@ -207,15 +207,27 @@ Section Proofs.
     simpl in Ht. injection Ht as <-. eauto.
   Qed.
 
-  (** the model passes the bus acceptor *)
-  Lemma bus_monitor_accepts (eqbP : P -> P -> bool) (Hrefl : forall p, eqbP p p = true)
+  Lemma bus_callbacks_ok_model (eqbV : V -> V -> bool) (HreflV : forall v, eqbV v v = true)
         cfg uuid obj c v modify pb :
-    bus_monitor gen_name enc eqbP cfg c v modify
+    bus_callbacks_ok gen_name eqbV v (fst (bus_send cfg uuid obj c v modify pb)) = true.
+  Proof.
+    unfold Model.bus_send, Model.marshal, bus_callbacks_ok.
+    destruct (enc v) as [p|]; [|reflexivity].
+    destruct (bc_topic cfg (gen_name v) v) as [t| |]; simpl; rewrite ?N.eqb_refl, ?HreflV; try reflexivity.
+    destruct (bc_hook cfg) as [[es1 []]|], modify as [[es2 []]|]; simpl;
+      rewrite ?N.eqb_refl, ?HreflV; reflexivity.
+  Qed.
+
+  (** the model passes the bus acceptor *)
+  Lemma bus_monitor_accepts (eqbV : V -> V -> bool) (HreflV : forall v, eqbV v v = true)
+        (eqbP : P -> P -> bool) (Hrefl : forall p, eqbP p p = true)
+        cfg uuid obj c v modify pb :
+    bus_monitor gen_name enc eqbV eqbP cfg c v modify
                 (fst (bus_send cfg uuid obj c v modify pb)) (snd (bus_send cfg uuid obj c v modify pb)) = true.
   Proof.
+    unfold bus_monitor. rewrite (bus_callbacks_ok_model eqbV HreflV). simpl.
     pose proof (bus_send_spec cfg uuid obj c v modify pb) as H.
     destruct (bus_send cfg uuid obj c v modify pb) as [tr r]. simpl.
-    unfold bus_monitor.
     destruct (reaches_publish cfg v modify) as [t|] eqn:R.
     - destruct H as (p & Hp & -> & ->).
       destruct (published_carries cfg uuid obj c v p modify) as (Hn & Hpl & Hc & _).
